@@ -36,7 +36,7 @@ ASSUMPTIONS = [
     "Meaning equality is decided on 6 random hit layouts per rule in addition to the canonical tree comparison.",
 ]
 REQUIRED = ["history:parse-on-shared-base", "op:parse-compare", "op:tree-compare", "op:eval-compare", "op:roundtrip", "op:reject-class",
-            "op:corruption", "feature:alias-use", "feature:comment", "feature:multi-text", "feature:multiplier",
+            "op:corruption", "feature:alias-use", "feature:comment", "feature:separator-cr-ff-vt", "feature:multi-text", "feature:multiplier",
             "feature:superiors-transitive", "feature:extenders", "shipped:rules-compared", "op:create_rules-on-files",
             "corruption:both-reject", "corruption:both-accept"]
 
@@ -163,6 +163,8 @@ def gen_file(rng):
             jittered = RG.jitter_layout(chunk, rng)
             if "#" in jittered:
                 features.add("comment")
+            if any(ch in jittered for ch in "\r\x0b\x0c"):
+                features.add("separator-cr-ff-vt")
             rendered.append(jittered)
         else:
             rendered.append(chunk)
@@ -350,6 +352,12 @@ def illformed_variants(rng):
                                    if prof != "b" else "RULE r0 CATEGORY catA CUTOFF 5 NEIGHBOURHOOD 5 CONDITIONS b and a and b\n"]
     yield "repeated-operand-or", ["RULE r0 CATEGORY catA CUTOFF 5 NEIGHBOURHOOD 5 CONDITIONS a or (b and c) or a\n"]
     yield "repeated-operand-group", ["RULE r0 CATEGORY catA CUTOFF 5 NEIGHBOURHOOD 5 CONDITIONS (a and b) or (a and b)\n"]
+    # the options of a minimum() are a set: the same options in another order are the same operand
+    for text in ("minimum(2, [a, b, c]) or minimum(2, [c, a, b])", "d and minimum(1, [a, b]) and minimum(1, [b, a])",
+                 "d and not minimum(2, [a, b]) and not minimum(2, [b, a])", "d and (minimum(2, [a, c]) or e or minimum(2, [c, a]))"):
+        yield "repeated-operand-minimum-reordered", [f"RULE r0 CATEGORY catA CUTOFF 5 NEIGHBOURHOOD 5 CONDITIONS {text}\n"]
+    yield "repeated-operand-minimum-reordered", ["DEFINE some AS minimum(2, [a, b, c])\n"
+                                                 "RULE r0 CATEGORY catA CUTOFF 5 NEIGHBOURHOOD 5 CONDITIONS d and some and minimum(2, [c, b, a])\n"]
     yield "repeated-operand-minimum", ["RULE r0 CATEGORY catA CUTOFF 5 NEIGHBOURHOOD 5 CONDITIONS minimum(2, [a, b, a])\n"]
     for marker in ("CUTOFF 5 ", "NEIGHBOURHOOD 5 ", "CATEGORY catA ", "CONDITIONS a and (b or c)"):
         yield "missing-" + marker.split()[0], [base.replace(marker, "")]
